@@ -107,6 +107,9 @@ VERSION_FILES = {
     "file:no-tweak-no-extra": ("VERSION_MAJOR = 2\nVERSION_MINOR = 0\nPATCHLEVEL = 9\n", 0x02000900, "2.0.9"),
     # calendar-style numbers: decimal fields written with leading zeros are decimal numbers (C19-q)
     "file:zero-padded-fields": ("VERSION_MAJOR = 24\nVERSION_MINOR = 09\nPATCHLEVEL = 01\nVERSION_TWEAK = 07\n", (24 << 24) + (9 << 16) + (1 << 8) + 7, "24.09.01"),
+    # an explicit version with more numeric fields than three (major.minor.patch.tweak, Zephyr style) is a version (C19-s)
+    "file:four-field-version": ("APP_ROOT_SEQ_NUM = 5\nAPP_ROOT_VERSION = 2.1.0.7\n", 5, "2.1.0.7"),
+    "file:five-field-prerelease": ("APP_ROOT_VERSION = 1.2.3.4-rc.5\nVERSION_MAJOR = 1\nVERSION_MINOR = 2\nPATCHLEVEL = 3\n", 0x01020300, "1.2.3.4-rc.5"),
     "file:explicit": ("APP_ROOT_SEQ_NUM = 300\nAPP_ROOT_VERSION = 3.1.4-beta\nVERSION_MAJOR = 9\nVERSION_MINOR = 9\nPATCHLEVEL = 9\n", 300, "3.1.4-beta"),
 }
 
